@@ -304,6 +304,14 @@ class SelectedMailbox:
     def hide_expunged(self, hide_expunged: bool) -> None:
         self._hide_expunged = hide_expunged
 
+    @property
+    def has_pending_expunge(self) -> bool:
+        """True if expunged messages were held back by :attr:`.hide_expunged`
+        and their untagged ``EXPUNGE`` responses are still to be generated.
+
+        """
+        return bool(self._messages._pending_remove)
+
     def add_updates(self, messages: Iterable[CachedMessage],
                     expunged: Iterable[int]) -> None:
         """Update the messages in the selected mailboxes. The ``messages``
